@@ -4,7 +4,7 @@ From Coq Require Import Ascii String.
 From Coq Require Import List ZArith NArith Bool Lia.
 From Coq.Strings Require Import Byte.
 From OgRek Require Import Base Utf8 GoStrconv PyQuote Float Value PyEq Dict Reader Decoder Typeconv Encoder Norm.
-From OgRek Require Import BaseFacts ReaderFacts CodecFacts IntFacts DecoderFacts EncoderFacts ExecFacts Utf8Facts.
+From OgRek Require Import BaseFacts ReaderFacts CodecFacts IntFacts DecoderFacts EncoderFacts ExecFacts Utf8Facts QuoteFacts.
 Import ListNotations.
 Open Scope N_scope.
 
@@ -262,6 +262,26 @@ Proof.
     rewrite (split_line_exact n _ Hn). reflexivity. }
   eexists; eexists; eexists. split; [eapply exec_one; [reflexivity|reflexivity|exact R]|].
   repeat split; try reflexivity; cbn; lia.
+Qed.
+
+(* protocol 0: S "quoted" LF, the text produced by pyquote *)
+Lemma push_string_quoted_leaf : forall cfg isp s,
+  pushes_leaf cfg (x53 :: pyquote isp s ++ [x0a]) (bytestring_t cfg s).
+Proof.
+  intros cfg isp s i st rest. cbn [app]. rewrite <- app_assoc. cbn [app].
+  set (body := pyquote_loop isp (length s) s).
+  assert (R : run (handler cfg OString x53 (i + 1) st) (pyquote isp s ++ x0a :: rest) =
+              (Ok (HOk (push_bytestring cfg s st)), rest)).
+  { cbn [handler run]. rewrite (split_line_exact _ rest (nolf_pyquote isp s)).
+    unfold pyquote. fold body.
+    assert (NE : body ++ [""""%byte] <> []) by (destruct body; discriminate).
+    destruct (body ++ [""""%byte]) as [|r0 r'] eqn:Eb; [contradiction|].
+    change (negb (beqb """"%byte "'"%byte || beqb """"%byte """"%byte)) with false. cbv iota.
+    rewrite <- Eb, lastb_app_one. change (negb (beqb """"%byte """"%byte)) with false. cbv iota.
+    rewrite removelast_last. unfold body. rewrite pydecode_string_escape_pyquote_body. reflexivity. }
+  unfold push_bytestring in R. unfold bytestring_t.
+  destruct (c_strict cfg); (eexists; eexists; eexists; split;
+    [eapply exec_one; [reflexivity|reflexivity|exact R]|repeat split; try reflexivity; cbn; lia]).
 Qed.
 
 (* the same lemmas in the weaker form used by the round trip *)
@@ -722,6 +742,15 @@ Section RT.
     - apply good_emit2. exact (push_binunicode cfg s Hl).
   Qed.
 
+  (* protocol 0 included *)
+  Lemma rt_bytestring' : forall s, bstr_fits c s = true -> good (enc_bytestring c s) (bstr_t c s).
+  Proof.
+    intros s H. unfold bstr_fits in H. destruct (1 <=? e_proto c)%Z eqn:Hp.
+    - apply Z.leb_le in Hp. unfold len32 in H. apply N.ltb_lt in H. exact (rt_bytestring s Hp H).
+    - unfold enc_bytestring. rewrite Hp. cbv zeta. apply good_emit.
+      exact (pushes_of_leaf _ _ _ (push_string_quoted_leaf cfg (e_isprint c) s)).
+  Qed.
+
   Lemma rt_string : forall s, (1 <= e_proto c)%Z -> Nlen s < 4294967296 ->
     good (enc_string c s) (TStr s).
   Proof.
@@ -729,6 +758,15 @@ Section RT.
     - apply rt_unicode; assumption.
     - destruct (3 <=? e_proto c)%Z; [apply rt_unicode; assumption|].
       pose proof (rt_bytestring s Hp Hl) as R. rewrite Es in R. exact R.
+  Qed.
+
+  Lemma rt_string' : forall s, str_fits c s = true -> good (enc_string c s) (TStr s).
+  Proof.
+    intros s H. unfold str_fits in H. unfold enc_string. destruct (e_strict c || (3 <=? e_proto c)%Z) eqn:E.
+    - unfold uni_fits in H. apply andb_true_iff in H. destruct H as [Hp Hl]. apply Z.leb_le in Hp.
+      unfold len32 in Hl. apply N.ltb_lt in Hl. apply rt_unicode; assumption.
+    - apply orb_false_iff in E. destruct E as [Es _]. pose proof (rt_bytestring' s H) as R.
+      unfold bstr_t in R. rewrite Es in R. exact R.
   Qed.
 
   Lemma has_lf_no_lf : forall s, has_lf s = false -> no_lf s.
@@ -905,18 +943,15 @@ Section RT.
     - destruct ((1 <=? e_proto c)%Z && (f <? 2 ^ 64)) eqn:E; [|discriminate]. inversion H; subst.
       apply andb_true_iff in E. destruct E as [E1 E2]. apply rt_float; [apply Z.leb_le|apply N.ltb_lt]; assumption.
     - (* strings *)
-      destruct ty; cbn [enc]; unfold norm_text, len32 in H;
+      destruct ty; cbn [enc];
         match type of H with (if ?b then _ else _) = _ => destruct b eqn:E; [|discriminate] end;
         inversion H; subst.
-      + apply andb_true_iff in E; destruct E as [E1 E2]; apply Z.leb_le in E1; apply N.ltb_lt in E2.
-        apply rt_string; assumption.
-      + apply andb_true_iff in E; destruct E as [E1 E2]; apply Z.leb_le in E1; apply N.ltb_lt in E2.
-        apply rt_string; assumption.
-      + apply andb_true_iff in E; destruct E as [E1 E2]; apply Z.leb_le in E1; apply N.ltb_lt in E2.
+      + apply rt_string'. exact E.
+      + apply rt_string'. exact E.
+      + unfold uni_fits, len32 in E. apply andb_true_iff in E; destruct E as [E1 E2]; apply Z.leb_le in E1; apply N.ltb_lt in E2.
         apply rt_unicode; assumption.
       + apply rt_bytes; assumption.
-      + apply andb_true_iff in E; destruct E as [E1 E2]; apply Z.leb_le in E1; apply N.ltb_lt in E2.
-        apply rt_bytestring; assumption.
+      + apply rt_bytestring'. exact E.
     - (* bytearray *)
       destruct (barr_ok c s) eqn:E; [|discriminate]. inversion H; subst.
       cbn [enc]. apply rt_bytearray; assumption.
@@ -1052,9 +1087,9 @@ Proof.
   - (* VInt *) inversion He; inversion Hr; subst. cbn in Hf |- *. rewrite Hf. reflexivity.
   - inversion He; inversion Hr; subst. reflexivity.
   - (* VFloat *) inversion He; inversion Hr; subst. cbn in Hf |- *. rewrite Hf. reflexivity.
-  - (* VStr *) inversion He; inversion Hr; subst. cbn in Hf |- *. unfold norm_text. rewrite Hf. reflexivity.
+  - (* VStr *) inversion He; inversion Hr; subst. cbn in Hf |- *. rewrite Hf. reflexivity.
   - (* VBStr *) inversion He; inversion Hr; subst. cbn in Hf |- *.
-    apply andb_true_iff in Hf. destruct Hf as [Hf Hs]. rewrite Hf, Hs. reflexivity.
+    apply andb_true_iff in Hf. destruct Hf as [Hf Hs]. rewrite Hf. unfold bstr_t. rewrite Hs. reflexivity.
   - (* VBytes *) inversion He; inversion Hr; subst. cbn in Hf |- *. rewrite Hf. reflexivity.
   - (* VBArr *) inversion He; inversion Hr; subst. cbn in Hf |- *. rewrite Hf. reflexivity.
   - (* VList *)
